@@ -170,7 +170,7 @@ def run_main(ctx):
     quick = ctx.tier == "quick"
     routes = ["diagonal", "quadratic", "quadratic-gso", "diagcoulomb", "individual", "sparse-multi", "taylor-dense",
               "individual-spinbroken", "individual-spinbroken"]
-    ncases = 70 if quick else 700
+    ncases = 70 if quick else 3000
     for case in range(ncases):
         route = routes[case % len(routes)]
         norb = rng.choice([2, 2, 3]) if route not in ("quadratic-gso",) else 2
@@ -336,7 +336,7 @@ def run_number_broken(ctx):
     from openfermion import FermionOperator, hermitian_conjugated, normal_ordered
     d, rng = ctx.driver, ctx.rng
     quick = ctx.tier == "quick"
-    for case in range(12 if quick else 150):
+    for case in range(12 if quick else 600):
         norb = rng.choice([2, 2, 3])
         sz = rng.randint(-norb + 1, norb - 1)
         w = fqe.get_spin_conserving_wavefunction(sz, norb)
